@@ -199,7 +199,8 @@ func c02main(c *Ctx) {
 		defer slog.SetDefault(savedDefault)
 		restore := withFlags(0, 0)
 		defer restore()
-		for _, f := range []slog.Flags{slog.Lcaller, slog.LattrsR, slog.Ldate, slog.Ltime, slog.Lmicroseconds, slog.LlocalTime, slog.Lprivacypath, slog.Lprivacypathregexp, slog.Lcallerpackagename} {
+		// none of the severities used here terminates: whether Panic/Fatal may interrupt is irrelevant, in either setting
+		for _, f := range []slog.Flags{slog.LnoInterrupt, slog.Linterruptalways, slog.Lcaller, slog.LattrsR, slog.Ldate, slog.Ltime, slog.Lmicroseconds, slog.LlocalTime, slog.Lprivacypath, slog.Lprivacypathregexp, slog.Lcallerpackagename} {
 			if r.Bool() {
 				slog.AddFlags(f)
 			} else {
@@ -291,7 +292,7 @@ func c02main(c *Ctx) {
 		vb := gen.Pick(r, verbs)
 		sev := vb.sev
 		if vb.any {
-			sev = gen.Pick(r, []slog.Level{slog.ErrorLevel, slog.WarnLevel, slog.InfoLevel, slog.DebugLevel, slog.TraceLevel, slog.AlwaysLevel, slog.OKLevel, slog.SuccessLevel, slog.FailLevel, slog.OffLevel, slog.Level(55)})
+			sev = gen.Pick(r, []slog.Level{slog.ErrorLevel, slog.WarnLevel, slog.InfoLevel, slog.DebugLevel, slog.TraceLevel, slog.AlwaysLevel, slog.OKLevel, slog.SuccessLevel, slog.FailLevel, slog.OffLevel, slog.Level(55), slog.Level(-1), slog.Level(-8), slog.Level(-1000), slog.Level(64), slog.Level(1 << 20)})
 		}
 		if vb.pkg {
 			slog.SetDefault(lg) // *Entry is a Logger the package functions know
@@ -329,40 +330,56 @@ func c02main(c *Ctx) {
 		c.R.JournalNote(fmt.Sprintf("%v", desc))
 		log.Reset()
 		pkgCall := false
-		switch mode {
-		case "Println()":
-			lg.Println()
-			blank = true
-		case "Println(str,...)":
-			lg.Println(append([]any{msg}, args...)...)
-		case "Println(nonstring,...)":
-			first := gen.Pick(r, []any{42, nil, 3.5, []byte("x"), struct{ A int }{7}, fmt.Errorf("e"), slog.InfoLevel})
-			lg.Println(append([]any{first}, args...)...)
-			id = ""
-		case "pkg.Println()":
-			slog.SetDefault(lg)
-			slog.Println()
-			blank, pkgCall = true, true
-		case "pkg.Println(str,...)":
-			slog.SetDefault(lg)
-			slog.Println(append([]any{msg}, args...)...)
-			pkgCall = true
-		case "pkg.Println(nonstring,...)":
-			slog.SetDefault(lg)
-			first := gen.Pick(r, []any{42, nil, 3.5, []byte("x"), struct{ A int }{7}, fmt.Errorf("e"), slog.InfoLevel})
-			slog.Println(append([]any{first}, args...)...)
-			id, pkgCall = "", true
-		case "blank":
-			if r.Bool() {
-				lg.Print(msg, args...)
-			} else {
+		panicked := ""
+		func() {
+			defer func() {
+				if e := recover(); e != nil {
+					panicked = fmt.Sprint(e)
+				}
+			}()
+			switch mode {
+			case "Println()":
+				lg.Println()
+				blank = true
+			case "Println(str,...)":
 				lg.Println(append([]any{msg}, args...)...)
+			case "Println(nonstring,...)":
+				first := gen.Pick(r, []any{42, nil, 3.5, []byte("x"), struct{ A int }{7}, fmt.Errorf("e"), slog.InfoLevel})
+				lg.Println(append([]any{first}, args...)...)
+				id = ""
+			case "pkg.Println()":
+				slog.SetDefault(lg)
+				slog.Println()
+				blank, pkgCall = true, true
+			case "pkg.Println(str,...)":
+				slog.SetDefault(lg)
+				slog.Println(append([]any{msg}, args...)...)
+				pkgCall = true
+			case "pkg.Println(nonstring,...)":
+				slog.SetDefault(lg)
+				first := gen.Pick(r, []any{42, nil, 3.5, []byte("x"), struct{ A int }{7}, fmt.Errorf("e"), slog.InfoLevel})
+				slog.Println(append([]any{first}, args...)...)
+				id, pkgCall = "", true
+			case "blank":
+				if r.Bool() {
+					lg.Print(msg, args...)
+				} else {
+					lg.Println(append([]any{msg}, args...)...)
+				}
+			default:
+				vb.call(lg, ctx, sev, msg, args)
+				pkgCall = vb.pkg
 			}
-		default:
-			vb.call(lg, ctx, sev, msg, args)
-			pkgCall = vb.pkg
-		}
+		}()
 		_ = pkgCall
+		if panicked != "" {
+			f0 := vb.name
+			if mode != "verb" {
+				f0 = mode
+			}
+			c.R.Violation(idx, "returns-normally", "C02/returns-normally/"+f0, fmt.Sprintf("a call of non-terminating severity %v(%d) panicked: %s", sev, int(sev), clip(panicked, 300)), desc)
+			return
+		}
 		evs := log.Events()
 		c.R.Add("write_events", int64(len(evs)))
 		treat := map[slog.Level]slog.Level{}
